@@ -78,7 +78,7 @@ noncomputable def finish (m : Sys ℝ) (c : Clock) (cvs : List (CvSt ℝ)) (upd 
     Sys ℝ × StepOut ℝ :=
   ({ m with clock := c, cvs := finCvs cvs (fbOf upd), biases := upd.map fun x => (x.1, x.2.1),
             lastApplied := atomFOf cvs (fbOf upd) },
-   { energy := sumL (upd.map fun x => x.2.2.1), atomF := atomFOf cvs (fbOf upd) })
+   { energy := sumL (upd.map fun x => if x.2.1.applies then x.2.2.1 else 0.0), atomF := atomFOf cvs (fbOf upd) })
 
 theorem modStep_eq (m : Sys ℝ) (i : StepIn ℝ) :
     modStep m i = finish m (m.clock.tick i.cont) (m.cvs.map (cvUpdate m (m.clock.tick i.cont) i))
